@@ -871,6 +871,26 @@ def enumerate_exprs(n, maxatoms):
             yield label(sh, iter(ATOMS[k] for k in g))
 
 
+LITERALS = ('1', '0', 'True', 'None')
+
+
+def enumerate_exprs_lit(n, maxatoms, lits=LITERALS):
+    """like enumerate_exprs, with at least one leaf a constant (CPython folds constant operands of and/or/not/if-else away)"""
+    for sh in shapes(n):
+        m = count_leaves(sh)
+        if n == 1: continue
+        for mask in itertools.product((False, True), repeat=m):
+            if not any(mask): continue
+            nat = m - sum(mask)
+            for lv in itertools.product(lits, repeat=sum(mask)):
+                for g in (growth_strings(nat, maxatoms) if nat else [[]]):
+                    li = iter(lv); ai = iter(ATOMS[k] for k in g); mi = iter(mask)
+                    def fill(e):
+                        if e[0] == 'a': return ('lit', next(li)) if next(mi) else ('a', next(ai))
+                        return (e[0],) + tuple(fill(c) for c in e[1:])
+                    yield fill(sh)
+
+
 def canon_rename(e):
     m = {}
     def rec(e):
@@ -898,6 +918,7 @@ def subtrees_replacements(e):
         for c in e[1:]:
             out.append(rebuild(c))
         out.append(rebuild(('a', 'z')))
+        if has_lit[0]: out.append(rebuild(('lit', '1'))); out.append(rebuild(('lit', '0')))
         sm = SMALLER.get(e[0])
         if sm:                                   # the same operator with one operand less
             kids = e[1:]
@@ -907,6 +928,7 @@ def subtrees_replacements(e):
                 if len(rest) == want: out.append(rebuild((sm,) + rest))
         for i, c in enumerate(e[1:], 1):
             rec(c, lambda x, i=i, e=e, rebuild=rebuild: rebuild(e[:i] + (x,) + e[i + 1:]))
+    has_lit = ['lit' in repr(e)]
     rec(e, lambda x: x)
     return sorted(set(out), key=lambda x: (tree_size(x), repr(x)))
 
@@ -990,7 +1012,9 @@ def canonical_ops(kind, e):
         node = cur
         for i in path: node = node[i]
         new = None
-        if node[0] in TRANSPARENT_UNARY: new = ('call1',) + node[1:]
+        if node[0] == 'lit' and node[1] not in ('1', '0'):      # constants: one truthy and one falsy representative
+            new = ('lit', '0' if node[1] in ('0', 'None', 'False', "''") else '1')
+        elif node[0] in TRANSPARENT_UNARY: new = ('call1',) + node[1:]
         elif node[0] in TRANSPARENT_BINARY: new = ('eq',) + node[1:]
         if new is not None:
             cand = replace(cur, path, new)
@@ -1016,7 +1040,7 @@ def rand_expr(rng, size, scope, value_pos=True):
     """random expression tree with about `size` nodes over the names in `scope`"""
     if size <= 1:
         r = rng.random()
-        if r < 0.08 and value_pos: return ('lit', rng.choice(['1', "'s'", 'None', 'True', '0']))
+        if (r < 0.08 and value_pos) or r < 0.03: return ('lit', rng.choice(['1', "'s'", 'None', 'True', '0']))
         return ('a', rng.choice(scope))
     r = rng.random()
     if r < 0.22 or size == 2:
@@ -1187,6 +1211,11 @@ WITNESSES = [   # the four known findings (known_findings.json): replayed on eve
     ('elt', ('ife', ('or', ('not', ('a', 'a')), ('a', 'b')), ('a', 'c'), ('a', 'd'))),
     ('elt', ('ife', ('and', ('not', ('a', 'a')), ('a', 'b')), ('a', 'c'), ('a', 'd'))),
     ('elt', ('ife', ('not', ('or', ('a', 'a'), ('a', 'b'))), ('a', 'c'), ('a', 'd'))),
+    # constant operand folded away by CPython 3.12 (a test whose two branches continue at the same place)
+    ('cond', ('or', ('a', 'a'), ('lit', '1'))),
+    ('cond', ('not', ('and', ('a', 'a'), ('lit', '0')))),
+    ('cond', ('ife', ('a', 'a'), ('lit', '1'), ('lit', '1'))),
+    ('cond', ('and', ('a', 'b'), ('or', ('a', 'a'), ('lit', 'True')))),
 ]
 CORPUS = os.path.join(os.path.dirname(os.path.dirname(os.path.abspath(__file__))), 'corpus', 'C03')
 
@@ -1351,14 +1380,23 @@ def run(ctx):
         shapes.__defaults__[0].clear()
         for n in range(full_k + 1, cf_k + 1):
             for e in enumerate_exprs(n, 4):
-                for kind in ('cond', 'elt', 'lam'): programs.append(prog_of(kind, e))
+                # quick tier: lambda bodies only up to the full-grammar bound (a lambda body is a value context like the yielded
+                # expression, and most lambdas with jumps are rejected with DecompileError) — keeps the engine under a minute on a loaded machine
+                for kind in (('cond', 'elt', 'lam') if ctx.thorough else ('cond', 'elt')): programs.append(prog_of(kind, e))
+        # constant operands (True / None / ints) of not, and/or, if-else, ==, f(.): CPython folds them away and leaves degenerate jumps
+        lit_k = ctx.scale(4, 5)
+        shapes.__defaults__[0].clear()
+        n_lit = 0
+        for n in range(2, lit_k + 1):
+            for e in enumerate_exprs_lit(n, 3):
+                for kind in ('cond', 'elt', 'lam'): programs.append(prog_of(kind, e)); n_lit += 1
     finally:
         for d, sv in zip((UNARY, BINARY, TERNARY), saved): d.clear(); d.update(sv)
         shapes.__defaults__[0].clear()
     n_enum = len(programs)
-    for _ in range(ctx.scale(300, 6000)):
+    for _ in range(ctx.scale(200, 6000)):
         programs.append(rand_program(ctx.rng))
-    ctx.extra['enumerated'] = {'full_grammar_up_to_size': full_k, 'control_flow_grammar_up_to_size': cf_k, 'programs_enumerated': n_enum, 'random_programs': len(programs) - n_enum}
+    ctx.extra['enumerated'] = {'full_grammar_up_to_size': full_k, 'control_flow_grammar_up_to_size': cf_k, 'constant_operand_grammar_up_to_size': lit_k, 'programs_with_constant_operands': n_lit, 'programs_enumerated': n_enum, 'random_programs': len(programs) - n_enum}
     size = 4000 if interpreted else max(100, len(programs) // 96)
     work = [(cmd, LEAN, c) for c in chunks(programs, size)]
     procs = 4 if interpreted else 16
